@@ -7,8 +7,13 @@
 #ifndef VERIF_C05_COMMON_H
 #define VERIF_C05_COMMON_H
 
-enum { CAL_YMD, CAL_YWD, CAL_YD, CAL_YMCW, NCAL };
-static const char *const cal_name[NCAL] = {"ymd", "ywd", "yd", "ymcw"};
+/* civil calendars first; then the operand representations that are not calendars:
+ * epoch-held values (@N), and the keys for pairs of unlike operands, written
+ * <earlier>~<later> (date = a date-only ymd operand, ymd = a civil date-time) */
+enum { CAL_YMD, CAL_YWD, CAL_YD, CAL_YMCW, NCAL,
+       CAL_EPOCH = NCAL, CAL_EP_YMD, CAL_YMD_EP, CAL_DATE_YMD, CAL_YMD_DATE, CAL_DATE_EP, CAL_EP_DATE, NCALX };
+static const char *const cal_name[NCALX] = {"ymd", "ywd", "yd", "ymcw", "epoch", "epoch~ymd", "ymd~epoch",
+	"date~ymd", "ymd~date", "date~epoch", "epoch~date"};
 
 /* text of a reference day in calendar CAL, optionally with a time of day (sec >= 0) */
 static void
@@ -20,6 +25,10 @@ day_text(int cal, const struct rc_day *p, int sec, char *buf, size_t bsz)
 	case CAL_YWD: n = snprintf(buf, bsz, "%04d-W%02d-%d", p->isoy, p->isow, p->wd); break;
 	case CAL_YD: n = snprintf(buf, bsz, "%04d-%03d", p->y, p->yday); break;
 	case CAL_YMCW: n = snprintf(buf, bsz, "%04d-%02d-%02d-%02d", p->y, p->m, p->mcnt, p->wd); break;
+	case CAL_EPOCH:
+		/* epoch-held: always a date-time */
+		snprintf(buf, bsz, "@%lld", (long long)p->unixd * 86400LL + (sec > 0 ? sec : 0));
+		return;
 	}
 	if (sec >= 0) {
 		snprintf(buf + n, bsz - (size_t)n, "T%02d:%02d:%02d", sec / 3600, sec / 60 % 60, sec % 60);
